@@ -1,0 +1,58 @@
+//! Scheduling / trace hooks for model-based conformance testing of [`BumpPool`](crate::BumpPool).
+//!
+//! This module only exists when the crate is compiled with `--cfg bump_scope_verif`;
+//! without that cfg no hook call is compiled into the crate.
+//!
+//! A hook is a plain function that is called at fixed points of the pool's locking protocol,
+//! on the thread that executes the pool operation. A test harness can use it to park threads
+//! at those points (to force an interleaving) and to take a sequence number while the pool's
+//! mutex is held.
+
+use core::{
+    mem,
+    ptr,
+    sync::atomic::{AtomicPtr, Ordering},
+};
+
+/// `BumpPool::lock`: the calling thread is about to acquire the pool's mutex (it does not hold it).
+pub const POOL_LOCK_BEFORE: u32 = 1;
+
+/// `BumpPool::lock`: the calling thread holds the pool's mutex and has not popped / pushed yet.
+/// `idle` is the number of idle `Bump`s in the pool.
+pub const POOL_LOCK_HELD: u32 = 2;
+
+/// `BumpPool::(try_)get*`: the mutex has been released again; a `Bump` was popped or created.
+pub const POOL_GET_AFTER: u32 = 3;
+
+/// `BumpPoolGuard::drop`: the `Bump` was pushed and the mutex has been released again.
+pub const POOL_PUT_AFTER: u32 = 4;
+
+/// Value of `idle` for events that don't observe the pool's vector.
+pub const NO_IDLE: usize = usize::MAX;
+
+/// The hook signature: the event (one of the constants of this module), the address of the pool
+/// and the number of idle `Bump`s (or [`NO_IDLE`]).
+pub type Hook = fn(event: u32, pool: usize, idle: usize);
+
+static HOOK: AtomicPtr<()> = AtomicPtr::new(ptr::null_mut());
+
+/// Installs (or with `None` removes) the process wide hook.
+pub fn set_hook(hook: Option<Hook>) {
+    let ptr = match hook {
+        Some(hook) => hook as *mut (),
+        None => ptr::null_mut(),
+    };
+
+    HOOK.store(ptr, Ordering::Release);
+}
+
+#[inline]
+pub(crate) fn emit<T>(event: u32, pool: &T, idle: usize) {
+    let ptr = HOOK.load(Ordering::Acquire);
+
+    if !ptr.is_null() {
+        // SAFETY: a non-null `HOOK` was stored by `set_hook` from a `Hook`
+        let hook = unsafe { mem::transmute::<*mut (), Hook>(ptr) };
+        hook(event, ptr::from_ref(pool) as usize, idle);
+    }
+}
